@@ -56,6 +56,8 @@ class UidLog:
         # lineages that an APPEND/COPY/MOVE without a tagged reply may have
         # added to (the UIDs it assigned are unknown)
         self.unacked_into: set[int] = set()
+        # lineages that hold messages whose UID no response announced
+        self.provisioned_unknown: set[int] = set()
 
     def count(self, k: str, n: int = 1) -> None:
         self.counters[k] = self.counters.get(k, 0) + n
@@ -173,6 +175,24 @@ class UidLog:
                             'commands' % (key, u))
                 else:
                     by_uid[u] = a
+            # every UID a dump shows was announced by the command that
+            # created the message (mailboxes other than INBOX receive nothing
+            # but acknowledged APPEND/COPY/MOVE in these histories)
+            announced = {a[2] for a in fresh}
+            if key[0] not in self.unacked_into and \
+                    key[0] != self.lineage.get(b'INBOX') and \
+                    key[0] not in self.provisioned_unknown:
+                for a in lst:
+                    if a[4] == 'FETCH':
+                        self.count('dumped_uids_checked_announced')
+                        if a[2] not in announced and not self.stale(key, a):
+                            rep('fetch-finds-unannounced-uid',
+                                'lineage/validity %r: UID %d (%r) is listed '
+                                '(steps %d-%d) but no APPENDUID/COPYUID ever '
+                                'announced it; announced: %r' % (
+                                    key, a[2], a[3], a[0], a[1],
+                                    sorted(announced)))
+                            break
             # real-time order between assignments
             fresh.sort(key=lambda a: a[1])
             for i, a in enumerate(fresh):
@@ -428,6 +448,9 @@ async def run_hist(spec: dict[str, Any], hist: History, ulog: UidLog) -> None:
                             rr2 = await s.cmd(b'RENAME ' + new + b' ' + a)
                             if rr2.ok:
                                 ulog.renamed(new, a)
+                elif r < 0.975 and sel:
+                    await s.cmd(b'CHECK')
+                    ulog.count('checks_issued')
                 elif r < 0.985:
                     # replace a mailbox by a new one of the same name while
                     # other sessions know (or have selected) the old one
@@ -530,6 +553,7 @@ class C04(Check):
                 'stale-selection-of-replaced-mailbox', 'uid-assigned-twice',
                 'uid-not-increasing', 'uidnext-not-above-existing',
                 'uidnext-above-next-assigned', 'appenduid-count',
+                'fetch-finds-unannounced-uid',
                 'copyuid-length-mismatch')
         viol = [v for v in hist.violations if v['mech'] in mine]
         hist.violations = viol
